@@ -201,6 +201,21 @@ theorem extrudeLineTris_lt (n : Nat) : ∀ i ∈ extrudeLineTris n, i < extrudeL
 theorem extrudeLineTris_len (n : Nat) : (extrudeLineTris n).length % 3 = 0 :=
   length_flatMap_mod3 _ _ (fun _ _ => by simp)
 
+/-! ### screw -/
+
+theorem screwTris_lt (lineLen segments : Nat) : ∀ i ∈ screwTris lineLen segments, i < screwVerts lineLen segments := by
+  intro i hi
+  simp only [screwTris, screwVerts, List.mem_flatMap, List.mem_range, List.mem_cons, List.not_mem_nil, or_false] at hi ⊢
+  obtain ⟨s, hs, j, hj, hi⟩ := hi
+  have h1 : (s + 1) * lineLen = s * lineLen + lineLen := Nat.succ_mul _ _
+  have h2 : (s + 1 + 1) * lineLen = (s + 1) * lineLen + lineLen := Nat.succ_mul _ _
+  have h3 : (s + 1 + 1) * lineLen ≤ segments * lineLen := Nat.mul_le_mul_right _ (by omega)
+  have h4 : lineLen * segments = segments * lineLen := Nat.mul_comm _ _
+  rcases hi with rfl | rfl | rfl | rfl | rfl | rfl <;> omega
+
+theorem screwTris_len (lineLen segments : Nat) : (screwTris lineLen segments).length % 3 = 0 :=
+  length_flatMap_mod3 _ _ (fun _ _ => length_flatMap_mod3 _ _ (fun _ _ => by simp))
+
 /-! ### extrude.polygon -/
 
 theorem polygonQuads_bound {pathLen sides : Nat} {closed : Bool} {q : Nat × Nat × Nat}
